@@ -9,6 +9,8 @@ import (
 	sdk "github.com/pokt-network/posmint/types"
 	"github.com/pokt-network/posmint/types/module"
 	posKeeper "github.com/pokt-network/posmint/x/pos/keeper"
+	posTypes "github.com/pokt-network/posmint/x/pos/types"
+	amino "github.com/tendermint/go-amino"
 )
 
 // simmod stands for "the other modules of the embedding application"
@@ -81,10 +83,13 @@ func registerSimmodCodec(cdc *codec.Codec) {
 }
 
 type simModule struct {
-	pk posKeeper.Keeper
+	pk     posKeeper.Keeper
+	posKey sdk.StoreKey
 }
 
-func newSimModule(pk posKeeper.Keeper) module.AppModule { return simModule{pk: pk} }
+func newSimModule(pk posKeeper.Keeper, posKey sdk.StoreKey) module.AppModule {
+	return simModule{pk: pk, posKey: posKey}
+}
 
 func (simModule) Name() string                                    { return simmodName }
 func (simModule) RegisterCodec(cdc *codec.Codec)                  { registerSimmodCodec(cdc) }
@@ -112,7 +117,16 @@ func (m simModule) NewHandler() sdk.Handler {
 			if _, found := m.pk.GetValidator(ctx, msg.Target); !found {
 				return sdk.ErrUnknownRequest("no such validator").Result()
 			}
-			m.pk.BurnValidator(ctx, msg.Target, msg.Severity)
+			// observation O5 (DESIGN.md): Keeper.BurnValidator dereferences a nil Dec when no burn is queued yet
+			// for the address, so a first burn can never be queued through it. The first entry is therefore
+			// written the way setValidatorBurn writes it; later burns for the same address go through the
+			// real BurnValidator (which then adds to the queued severity).
+			store := ctx.KVStore(m.posKey)
+			if store.Get(posTypes.KeyForValidatorBurn(msg.Target)) == nil {
+				store.Set(posTypes.KeyForValidatorBurn(msg.Target), amino.MustMarshalBinaryBare(msg.Severity))
+			} else {
+				m.pk.BurnValidator(ctx, msg.Target, msg.Severity)
+			}
 			return sdk.Result{}
 		}
 		return sdk.ErrUnknownRequest("unrecognized simmod message").Result()
